@@ -1036,6 +1036,44 @@ func genCase(t *rapid.T, kind string) Case {
 		c.Series = append(c.Series, fakeprom.BitmapSeries{Labels: seriesLabels[si], Runs: fakeprom.RunsOf(bits)})
 	}
 
+	// series that differ ONLY in the metric name (`a > 0 or b > 0`, {__name__=~"a|b"}, a metric renamed half way):
+	// in a third of the cases series 1 becomes series 0's twin under another __name__, with presence of its own,
+	// series 0's shifted by a few points (overlapping), or exactly the complement of series 0's (adjacent in time)
+	if len(c.Series) >= 2 && rapid.IntRange(0, 2).Draw(t, "nameTwin") == 0 {
+		base := map[string]string{}
+		for k, v := range c.Series[0].Labels {
+			base[k] = v
+		}
+		twin := map[string]string{}
+		for k, v := range base {
+			twin[k] = v
+		}
+		if rapid.Bool().Draw(t, "bothNamed") || base["__name__"] != "" {
+			if base["__name__"] == "" {
+				base["__name__"] = "http_errors"
+			}
+			twin["__name__"] = "grpc_errors"
+		} else {
+			twin["__name__"] = "grpc_errors" // series 0 has no metric name at all (an aggregation), its twin has one
+		}
+		clash := false
+		for i, o := range c.Series {
+			if i > 1 && (lblString(o.Labels) == lblString(base) || lblString(o.Labels) == lblString(twin)) {
+				clash = true
+			}
+		}
+		if !clash {
+			c.Series[0].Labels = base
+			c.Series[1].Labels = twin
+			switch rapid.IntRange(0, 2).Draw(t, "twinPresence") {
+			case 0: // shifted: overlaps series 0
+				c.Series[1].Runs = append([]int{rapid.IntRange(1, 5).Draw(t, "twinShift")}, c.Series[0].Runs...)
+			case 1: // complement: present exactly where series 0 is absent
+				c.Series[1].Runs = append([]int{0}, c.Series[0].Runs...)
+			}
+		}
+	}
+
 	// the order in which a response lists the series varies from slice to slice
 	if ns > 1 {
 		idx := make([]int, ns)
